@@ -81,6 +81,11 @@ def expectations(dst, features=()):
     return out
 
 
+def _repo_artifacts(tdir):
+    """nothing is kept: the artifacts of /repo itself are rebuilt in about a second when the next check of the real tree runs"""
+    return set()
+
+
 def run(name, features, repo="/repo", extra_deps="", prop="C19", rule="W"):
     """returns (obs, info)"""
     t0 = time.time()
@@ -104,6 +109,21 @@ def run(name, features, repo="/repo", extra_deps="", prop="C19", rule="W"):
     with open(os.path.join(WORK, "lock-witness-" + base_slot), "w") as lk:
         fcntl.flock(lk, fcntl.LOCK_EX)
         p = subprocess.run(cmd, cwd=dst, env=env, stdout=subprocess.PIPE, stderr=subprocess.PIPE, text=True)
+        if os.path.abspath(repo) != "/repo":
+            # a scratch copy (self-test) is a different package id for cargo: its fn_graph / witness artifacts would pile up in
+            # the shared target directory (about 20 MB per copy); the dependencies stay cached
+            import glob
+            tdir = os.path.join(env["CARGO_TARGET_DIR"], "debug")
+            keep = _repo_artifacts(tdir)
+            for pat in ("deps/libfn_graph-*", "deps/fn_graph-*", ".fingerprint/fn_graph-*", "deps/libwitness_*", "deps/witness_*",
+                        ".fingerprint/witness_*", "examples/*", "incremental/*"):
+                for f in glob.glob(os.path.join(tdir, pat)):
+                    if f in keep:
+                        continue
+                    try:
+                        shutil.rmtree(f) if os.path.isdir(f) else os.unlink(f)
+                    except OSError:
+                        pass
     errs = {}      # target name -> list of (code, message, rendered)
     built = set()
     dep_error = None
